@@ -294,9 +294,24 @@ def check(chk):
     ok = any(text(c.function) == 'themap._insert_unchecked' and [text(a) for a in c.args] == ['key', 'to_bytes(&key_buf)', 'val'] for c in calls_named(mp, 'themap._insert_unchecked')) and \
         'themap._insert_unchecked(key, keybytes, val)' in src(pm_)
     chk.judge(ok, 'C07.coll', (DES, '_deserialize_map', des.line(mp)), 'map entries inserted with the raw key bytes on both sides', 'map insertion differs')
-    om = [text(n.rhs) for n in walk(mp) if tname(n) == 'SingleAssignmentNode' and text(n.lhs) == 'themap']
-    pom = [src(n.value) for n in body_walk(pm_) if isinstance(n, ast.Assign) and src(n.targets[0]) == 'themap']
-    chk.judge(om == ['util.OrderedMapSerializedKey(key_type, protocol_version)'] and pom == om, 'C07.coll', (DES, '_deserialize_map', des.line(mp)), 'same map container, constructed with the outer protocol version, on both sides', 'map container construction differs: %s vs %s' % (om, pom))
+    # the container re-serialises looked-up keys with the version it is given; the index holds the key bytes as received (inner encoding):
+    # both sides must hand the container the very version they decode the key bytes with
+    om = [(n.rhs, des.line(n)) for n in walk(mp) if tname(n) == 'SingleAssignmentNode' and text(n.lhs) == 'themap']
+    kd = [c for c in calls_named(mp, 'from_binary') if text(c.args[0]) == 'key_deserializer']
+    ok_c = len(om) == 1 and len(kd) == 1 and tname(om[0][0]) == 'SimpleCallNode' and text(om[0][0].function) == 'util.OrderedMapSerializedKey' and text(om[0][0].args[0]) == 'key_type'
+    if ok_c:
+        var = text(om[0][0].args[1])
+        reass = [des.line(n) for n in walk(mp) if tname(n) == 'SingleAssignmentNode' and text(n.lhs) == var]
+        ok_c = text(kd[0].args[2]) == var and all(r < om[0][1] for r in reass) and all(r < des.line(kd[0]) for r in reass) and any('max(3,' in text(n.rhs) for n in walk(mp) if tname(n) == 'SingleAssignmentNode' and text(n.lhs) == var)
+    pom = [n for n in body_walk(pm_) if isinstance(n, ast.Assign) and src(n.targets[0]) == 'themap']
+    pkd = [n for n in body_walk(pm_) if isinstance(n, ast.Call) and src(n.func) == 'key_type.from_binary']
+    ok_p = len(pom) == 1 and len(pkd) == 1 and isinstance(pom[0].value, ast.Call) and src(pom[0].value.func) == 'util.OrderedMapSerializedKey' and src(pom[0].value.args[0]) == 'key_type'
+    if ok_p:
+        var = src(pom[0].value.args[1])
+        reass = [n for n in body_walk(pm_) if isinstance(n, ast.Assign) and src(n.targets[0]) == var]
+        ok_p = src(pkd[0].args[1]) == var and all(r.lineno < pom[0].lineno for r in reass) and any('max(3,' in src(r.value) for r in reass)
+    chk.judge(ok_c and ok_p, 'C07.coll', (DES, '_deserialize_map', des.line(mp)), 'map container is given the version the key bytes are decoded with (the inner, >= 3, one) on both sides',
+              'the map container re-serialises keys with another version than the one its index bytes are in (compiled ok=%s, pure ok=%s): lookups by key fail on protocol 1/2' % (ok_c, ok_p))
     # tuple
     tf = own_deser('DesTupleType')
     pt, _ = C.find_method(cq.cls('TupleType'), 'deserialize_safe')
